@@ -11,7 +11,7 @@ import os
 from mc import refs
 from mc.runner import HarnessError
 from mc.vloop import CLOCK, VLoop, LiveLock, task_result
-from mc.world import (FakeReader, FakeWriter, install_net, classes, session_of, num_in, num_out,
+from mc.world import (FakeReader, FakeWriter, install_net, classes, session_of, reader_of, num_in, num_out,
                       stored_counters, journal_rows, conn_key, TmpDir)
 
 RUN_LIMIT = 3000
@@ -101,7 +101,7 @@ class World2:
         return self.side(x).c.connection_state.value > 3
 
     def can_connect(self):
-        return (not self.up) and all(s.c.connection_state.value <= 3 and getattr(s.c, "_socket_reader", None) is None
+        return (not self.up) and all(s.c.connection_state.value <= 3 and reader_of(s.c) is None
                                      for s in (self.a, self.b))
 
     def connect(self):
